@@ -172,9 +172,19 @@ void harness(void) {
         memcpy(before, membk_file, MEMBK_SIZE);
         len_before = membk_len;
         uint32_t log_from = membk_n_writes;
+#if defined(OP1)
+        /* operations are fixed per instance (a symbolic choice among 8 operations per step did not finish symex); their
+         * arguments and payloads stay symbolic */
+        const uint8_t op = (step == 0) ? OP1 : OP2;
+#else
         SYM_U8(op);
+#endif
+#ifdef PLEN_FIXED
+        const uint32_t plen = PLEN_FIXED;    /* concrete sizes keep every file offset concrete (field-sensitive file image) */
+#else
         SYM_U32(plen);
         ASSUME(plen <= 8);
+#endif
         uint8_t pay[24];
         SYM_BYTES(pay, 8, "pay");
         memset(pay + 8, 0, 16);
@@ -187,14 +197,18 @@ void harness(void) {
             case 3: jls_wr_annotation(wr, 1, 5 + step, 1.0f, JLS_ANNOTATION_TYPE_USER, 0, JLS_STORAGE_TYPE_BINARY, pay, plen); break;
             case 4: jls_wr_utc(wr, 1, 10 + step, 1000 + step); break;
             case 5: {
-                SYM_U8(nul);
+#ifdef USERDATA_NULL
+                const uint8_t nul = (step == 0) ? 1 : 0;     /* first call with a NULL payload (rejected), then a valid one */
+#else
+                const uint8_t nul = 0;
+#endif
                 jls_wr_user_data(wr, 0x123, JLS_STORAGE_TYPE_BINARY, (nul & 1) ? NULL : pay, plen);
                 break;
             }
             case 6: {
                 static const struct jls_source_def_s s1 = {.source_id = 1, .name = "a", .vendor = "b", .model = "c", .version = "d", .serial_number = "e"};
                 static const struct jls_source_def_s s2 = {.source_id = 2, .name = "f", .vendor = "g", .model = "h", .version = "i", .serial_number = "j"};
-                jls_wr_source_def(wr, (plen & 1) ? &s1 : &s2);
+                jls_wr_source_def(wr, (step == 0) ? &s1 : &s2);
                 break;
             }
             default: jls_wr_annotation(wr, 0, 7 + step, 2.0f, JLS_ANNOTATION_TYPE_TEXT, 1, JLS_STORAGE_TYPE_BINARY, pay, plen); break;
